@@ -447,7 +447,7 @@ func c17Generate(t *rapid.T) c17Gen {
 			op.Group, op.Topic = group.Draw(t, "group"), topic.Draw(t, "topic")
 			op.Part = int32(rapid.IntRange(0, 2).Draw(t, "part"))
 			op.Off = rapid.OneOf(rapid.Int64Range(0, 5), rapid.Int64Range(0, 1<<62)).Draw(t, "off")
-			op.Meta = rapid.SampledFrom([]string{"", "m", "meta é", "{\"x\":1}"}).Draw(t, "meta")
+			op.Meta = rapid.SampledFrom([]string{"", "m", " m ", "meta é", "{\"x\":1}", "\t", "<&>\u2028", "A\x00b"}).Draw(t, "meta")
 			committedOn[op.Topic] = true
 		case "fetchOffset":
 			op.Group, op.Topic = group.Draw(t, "group"), pick("topic", everDeleted, true)
